@@ -33,6 +33,8 @@ def _fresh(name, default):
     key = name if n == 1 else "%s#%d" % (name, n)
     v = MODEL.get(key, default)
     if isinstance(v, dict):
+        if "__pred__" in v:
+            return v
         if "__bytes__" in v:
             return bytes.fromhex(v["__bytes__"])
         if "__float__" in v:
@@ -308,3 +310,9 @@ def sym_list(n, f, key=None):
 
 def set_clock(t):
     CLOCK[0] = float(t)
+
+
+def fresh_predicate(name):
+    v = _fresh(name, None)
+    table = v.get("__pred__", []) if isinstance(v, dict) else []
+    return lambda j: bool(table[j]) if 0 <= j < len(table) else False
